@@ -1,4 +1,524 @@
 package check
 
-func Check(opts Options) int      { return 2 }
-func Rebaseline(opts Options) int { return 2 }
+import (
+	"bufio"
+	"encoding/json"
+	"fmt"
+	"os"
+	"path/filepath"
+	"regexp"
+	"sort"
+	"strings"
+	"time"
+
+	"govc/vc"
+)
+
+// prop.go: the per-property check (quick / thorough), baseline, known findings, evidence, replay files.
+
+type finding struct {
+	Kind       string // finding | fixed
+	Property   string
+	Obligation string
+	What       string
+	Line       string
+}
+
+var kvRe = regexp.MustCompile(`(\w+)=("[^"]*"|\S+)`)
+
+func loadFindings(verif string) ([]finding, error) {
+	f, err := os.Open(filepath.Join(verif, "known_findings.txt"))
+	if err != nil {
+		if os.IsNotExist(err) {
+			return nil, nil
+		}
+		return nil, err
+	}
+	defer f.Close()
+	var out []finding
+	sc := bufio.NewScanner(f)
+	for sc.Scan() {
+		line := strings.TrimSpace(sc.Text())
+		if line == "" || strings.HasPrefix(line, "#") {
+			continue
+		}
+		var fd finding
+		switch {
+		case strings.HasPrefix(line, "finding:"):
+			fd.Kind = "finding"
+		case strings.HasPrefix(line, "fixed:"):
+			fd.Kind = "fixed"
+		default:
+			continue
+		}
+		fd.Line = line
+		for _, m := range kvRe.FindAllStringSubmatch(line, -1) {
+			v := strings.Trim(m[2], `"`)
+			switch m[1] {
+			case "property":
+				fd.Property = v
+			case "obligation":
+				fd.Obligation = v
+			case "what":
+				fd.What = v
+			}
+		}
+		out = append(out, fd)
+	}
+	return out, sc.Err()
+}
+
+type baseline map[string][]string
+
+func loadBaseline(verif string) baseline {
+	b := baseline{}
+	data, err := os.ReadFile(filepath.Join(verif, "engine", "baseline_obligations.json"))
+	if err != nil {
+		return b
+	}
+	json.Unmarshal(data, &b)
+	return b
+}
+
+// baselineKinds are the obligation kinds whose names are stable (labelled clauses); implicit safety
+// obligations are numbered and are not part of the baseline.
+func inBaseline(o *vc.Obligation) bool {
+	if o.Cover || o.Bounded != "" {
+		return false
+	}
+	switch {
+	case o.Kind == "safe", o.Kind == "unreachable":
+		return false
+	case strings.HasPrefix(o.Kind, "pre"), strings.HasPrefix(o.Kind, "lock"):
+		return false
+	}
+	return true
+}
+
+func selectFor(prop string) (func(string, *vc.FuncContract) bool, func(*vc.Lemma) bool) {
+	return func(id string, fc *vc.FuncContract) bool {
+			if hasProp(fc.Props, prop) {
+				return true
+			}
+			for _, cls := range [][]*vc.Clause{fc.Requires, fc.Ensures} {
+				for _, cl := range cls {
+					if hasProp(cl.Props, prop) {
+						return true
+					}
+				}
+			}
+			for _, lc := range fc.Loops {
+				for _, cl := range lc.Invariants {
+					if hasProp(cl.Props, prop) {
+						return true
+					}
+				}
+			}
+			for _, at := range fc.Ats {
+				if at.Clause != nil && hasProp(at.Clause.Props, prop) {
+					return true
+				}
+			}
+			return false
+		}, func(lm *vc.Lemma) bool {
+			return hasProp(lm.Props, prop)
+		}
+}
+
+type violation struct {
+	Obligation string
+	Reason     string
+	Replay     string
+	NoInput    bool
+}
+
+// Check runs one property check.
+func Check(opts Options) int {
+	start := time.Now()
+	prop := opts.Prop
+	if prop == "" {
+		fmt.Fprintln(os.Stderr, "check: -prop required")
+		return 2
+	}
+	selF, selL := selectFor(prop)
+	rr, err := generate(opts, selF, selL)
+	replayDir := filepath.Join(opts.Verif, "replays", prop)
+	if err != nil {
+		// the tree does not load (does not compile with the tag on, contract file broken)
+		os.MkdirAll(replayDir, 0o755)
+		rp := filepath.Join(replayDir, "load-error.json")
+		writeJSON(rp, map[string]any{"property": prop, "obligation": "load", "error": err.Error()})
+		fmt.Printf("VIOLATION property=%s replay=%s no-failing-input-found\n", prop, rp)
+		fmt.Printf("  cannot generate obligations: %v\n", err)
+		return 1
+	}
+	rr.discharge(opts, func(o *vc.Obligation) bool { return hasProp(o.Props, prop) })
+	defer rr.cleanup(opts)
+
+	findings, _ := loadFindings(opts.Verif)
+	base := loadBaseline(opts.Verif)
+
+	// aggregate per obligation name
+	type agg struct {
+		name      string
+		instances []*oblResult
+	}
+	byName := map[string]*agg{}
+	var order []string
+	for _, r := range rr.Results {
+		a := byName[r.O.Name]
+		if a == nil {
+			a = &agg{name: r.O.Name}
+			byName[r.O.Name] = a
+			order = append(order, r.O.Name)
+		}
+		a.instances = append(a.instances, r)
+	}
+	sort.Strings(order)
+
+	var viols []violation
+	var known []string
+	knownSeen := map[string]bool{}
+	nObl, nDis, nCover, nBounded, nBoundedOK := 0, 0, 0, 0, 0
+	bySolver := map[string]int{}
+	byKind := map[string]int{}
+	solverSecs := 0.0
+	var samples []any
+	var knownList []any
+	os.RemoveAll(replayDir)
+
+	isKnown := func(name string) *finding {
+		for i := range findings {
+			f := &findings[i]
+			if f.Kind == "finding" && f.Property == prop && f.Obligation == name {
+				return f
+			}
+		}
+		return nil
+	}
+
+	// generator refusals
+	for _, f := range rr.Funcs {
+		if f.Err == nil {
+			continue
+		}
+		name := f.Func + "#generate"
+		if kf := isKnown(name); kf != nil {
+			if !knownSeen[name] {
+				knownSeen[name] = true
+				known = append(known, fmt.Sprintf("KNOWN-FINDING: property=%s %s", prop, kf.What))
+			}
+			continue
+		}
+		rp := writeReplay(replayDir, name, map[string]any{"property": prop, "obligation": name, "verdict": "no-model",
+			"generator_message": f.Err.Error(), "note": "the obligations of this function can no longer be generated from the current source"})
+		viols = append(viols, violation{Obligation: name, Reason: f.Err.Error(), Replay: rp, NoInput: true})
+	}
+
+	for _, name := range order {
+		a := byName[name]
+		o0 := a.instances[0].O
+		allOK := true
+		var worst *oblResult
+		for _, r := range a.instances {
+			solverSecs += r.V.Secs
+			switch r.V.Status {
+			case "discharged", "covered", "covered-unknown":
+			default:
+				allOK = false
+				if worst == nil || r.V.Status == "failed" {
+					worst = r
+				}
+			}
+		}
+		if o0.Cover {
+			nCover++
+			if !allOK {
+				rp := writeReplay(replayDir, name, replayDoc(prop, worst, rr, "vacuity guard: the assumptions reaching this point are unsatisfiable (contradictory precondition/invariant or unreachable code)"))
+				viols = append(viols, violation{Obligation: name, Reason: "vacuity guard " + worst.V.Status, Replay: rp, NoInput: true})
+			}
+			continue
+		}
+		if o0.Bounded != "" {
+			nBounded++
+			if allOK {
+				nBoundedOK++
+			}
+		}
+		kf := isKnown(name)
+		if kf != nil {
+			if !allOK {
+				if !knownSeen[name] {
+					knownSeen[name] = true
+					known = append(known, fmt.Sprintf("KNOWN-FINDING: property=%s %s", prop, kf.What))
+				}
+				knownList = append(knownList, map[string]any{"obligation": name, "what": kf.What, "status": worst.V.Status})
+			} else {
+				knownList = append(knownList, map[string]any{"obligation": name, "what": kf.What, "status": "no longer reproduces"})
+			}
+			continue
+		}
+		if o0.Bounded == "" {
+			nObl++
+			byKind[kindGroup(o0.Kind)]++
+		}
+		if allOK {
+			if o0.Bounded == "" {
+				nDis++
+				bySolver[a.instances[0].V.By]++
+			}
+			if len(samples) < 12 && o0.Src != "" {
+				samples = append(samples, map[string]any{"obligation": name, "clause": o0.Src, "at": o0.Pos, "discharged_by": a.instances[0].V.By, "instances": len(a.instances)})
+			}
+			continue
+		}
+		reason := "obligation " + worst.V.Status
+		doc := replayDoc(prop, worst, rr, "")
+		noInput := true
+		if worst.V.Status == "failed" {
+			reason = "counterexample found by " + worst.V.By
+		}
+		rp := writeReplay(replayDir, name, doc)
+		viols = append(viols, violation{Obligation: name, Reason: reason, Replay: rp, NoInput: noInput})
+	}
+	// baseline: every claimed obligation must still be generated
+	for _, bn := range base[prop] {
+		if _, ok := byName[bn]; ok {
+			continue
+		}
+		if isKnown(bn) != nil {
+			continue
+		}
+		dup := false
+		for _, v := range viols {
+			if strings.HasPrefix(bn, strings.TrimSuffix(v.Obligation, "#generate")+"#") {
+				dup = true
+			}
+		}
+		if dup {
+			continue
+		}
+		rp := writeReplay(replayDir, bn, map[string]any{"property": prop, "obligation": bn, "verdict": "no-model",
+			"note": "this obligation is discharged on the pinned tree and is no longer generated (function or clause gone, or it no longer serves this property)"})
+		viols = append(viols, violation{Obligation: bn, Reason: "claimed obligation no longer generated", Replay: rp, NoInput: true})
+	}
+	if nObl == 0 && len(viols) == 0 {
+		rp := writeReplay(replayDir, "no-obligations", map[string]any{"property": prop, "note": "no obligations were generated for this property"})
+		viols = append(viols, violation{Obligation: "no-obligations", Reason: "vacuous check", Replay: rp, NoInput: true})
+	}
+
+	// evidence
+	var funcs []string
+	var trusted []string
+	assumed := map[string]bool{}
+	for _, f := range rr.Funcs {
+		if f.Trusted {
+			continue
+		}
+		funcs = append(funcs, f.Func)
+		for _, a := range f.Assumed {
+			assumed[a] = true
+		}
+	}
+	for _, id := range rr.Prog.SortedContractKeys() {
+		fc := rr.Prog.Contracts.Funcs[id]
+		if (fc.Trusted || fc.Abstract) && len(fc.UsedBy) > 0 {
+			kind := "trusted contract"
+			if fc.Abstract {
+				kind = "interface-method contract (implementations checked separately)"
+			}
+			trusted = append(trusted, fmt.Sprintf("%s: %s %s", kind, id, strings.Join(fc.Notes, "; ")))
+		}
+	}
+	for m := range rr.Prog.Models {
+		trusted = append(trusted, "library model: "+m)
+	}
+	trusted = append(trusted,
+		"SMT solvers z3 4.8.12, z3 5.1.0, cvc5 1.0.3 (an obligation is discharged when one answers unsat and none answers sat)",
+		"govc's own symbolic semantics of the accepted Go subset (DESIGN.md section 2)",
+		"go/types (golang.org/x/tools v0.29.0 loader) for typing and method sets")
+	sort.Strings(trusted)
+	var assumptions []string
+	for a := range assumed {
+		assumptions = append(assumptions, a)
+	}
+	sort.Strings(assumptions)
+	assumptions = append(assumptions,
+		"A-INT: Go integers are mathematical integers with the type's sign assumed; overflow is not modelled (unsigned subtraction is checked)",
+		"composition of the per-function contracts into the whole-run statement of the property is a hand-written argument in DESIGN.md section 3, not machine-checked",
+		"map iteration order is arbitrary: range-over-map loops are verified for an arbitrary unvisited key under their invariant")
+	sort.Strings(funcs)
+	ev := map[string]any{
+		"property_id": prop,
+		"tier":        tierName(opts.Tier),
+		"seed":        opts.Seed,
+		"level":       "proof",
+		"coverage": map[string]any{
+			"obligations":             nObl,
+			"discharged":              nDis,
+			"checker_cmd":             fmt.Sprintf("/verif/bin/govc check -prop %s -tier %s -root %s", prop, tierName(opts.Tier), opts.Root),
+			"trusted_base":            trusted,
+			"functions_under_contract": funcs,
+			"obligations_by_kind":     byKind,
+			"discharged_by_solver":    bySolver,
+			"vacuity_guards":          nCover,
+			"bounded_standins":        map[string]any{"obligations": nBounded, "ok": nBoundedOK, "note": "bounded stand-ins are not counted in obligations/discharged"},
+			"known_findings":          knownList,
+			"samples":                 samples,
+			"solver_seconds_total":    round2(solverSecs),
+			"load_seconds":            round2(rr.LoadSecs),
+			"generate_seconds":        round2(rr.GenSecs),
+			"explanation":             "each obligation is an SMT query generated from the typed AST of the function in /repo's working tree and its //@ contract; names are pkg.func#kind.label",
+		},
+		"assumptions": assumptions,
+		"wall_s":      round2(time.Since(start).Seconds()),
+		"violations":  len(viols),
+	}
+	if !opts.NoEvidence {
+		if err := writeJSON(filepath.Join(opts.Verif, "evidence", prop+".json"), ev); err != nil {
+			fmt.Fprintln(os.Stderr, "evidence:", err)
+		}
+	}
+	for _, k := range known {
+		fmt.Println(k)
+	}
+	for _, v := range viols {
+		suffix := ""
+		if v.NoInput {
+			suffix = " no-failing-input-found"
+		}
+		fmt.Printf("VIOLATION property=%s replay=%s%s\n", prop, v.Replay, suffix)
+		fmt.Printf("  obligation %s: %s\n", v.Obligation, v.Reason)
+	}
+	fmt.Printf("%s %s: %d obligations, %d discharged, %d vacuity guards, %d known findings, %d violations, %.1fs\n",
+		prop, tierName(opts.Tier), nObl, nDis, nCover, len(known), len(viols), time.Since(start).Seconds())
+	if len(viols) > 0 {
+		return 1
+	}
+	return 0
+}
+
+func kindGroup(k string) string {
+	switch {
+	case strings.HasPrefix(k, "inv."):
+		return "invariant"
+	case strings.HasPrefix(k, "dec."):
+		return "variant"
+	case strings.HasPrefix(k, "pre"):
+		return "callee-precondition"
+	}
+	return k
+}
+
+func tierName(t string) string {
+	if t == "thorough" {
+		return "thorough"
+	}
+	return "quick"
+}
+
+func round2(f float64) float64 { return float64(int(f*100+0.5)) / 100 }
+
+func replayDoc(prop string, r *oblResult, rr *runResult, note string) map[string]any {
+	doc := map[string]any{
+		"property":   prop,
+		"obligation": r.O.Name,
+		"function":   r.O.Func,
+		"at":         r.O.Pos,
+		"clause":     r.O.Src,
+		"status":     r.V.Status,
+		"answers":    r.V.Answers,
+		"verdict":    "no-model",
+	}
+	if note != "" {
+		doc["note"] = note
+	}
+	if r.V.Model != "" {
+		doc["model"] = r.V.Model
+		doc["verdict"] = "model-not-replayed"
+	}
+	if r.V.Phase2 != nil {
+		doc["model_search_without_quantified_assumptions"] = r.V.Phase2
+	}
+	doc["smt_query"] = r.O.Script("(set-option :produce-models true)\n(set-logic ALL)\n")
+	return doc
+}
+
+func writeReplay(dir, name string, doc map[string]any) string {
+	os.MkdirAll(dir, 0o755)
+	p := filepath.Join(dir, sanitizeName(name)+".json")
+	writeJSON(p, doc)
+	return p
+}
+
+func sanitizeName(s string) string {
+	var sb strings.Builder
+	for _, r := range s {
+		switch {
+		case r >= 'a' && r <= 'z', r >= 'A' && r <= 'Z', r >= '0' && r <= '9', r == '_', r == '.', r == '-', r == '#':
+			sb.WriteRune(r)
+		default:
+			sb.WriteByte('_')
+		}
+	}
+	out := sb.String()
+	if len(out) > 150 {
+		out = out[:150]
+	}
+	return out
+}
+
+// Rebaseline records, per property, the labelled obligations that are discharged on the current tree.
+func Rebaseline(opts Options) int {
+	rr, err := generate(opts, func(string, *vc.FuncContract) bool { return true }, func(*vc.Lemma) bool { return true })
+	if err != nil {
+		fmt.Fprintln(os.Stderr, "error:", err)
+		return 2
+	}
+	rr.discharge(opts, nil)
+	defer rr.cleanup(opts)
+	ok := map[string]bool{}
+	bad := map[string]bool{}
+	props := map[string][]string{}
+	for _, r := range rr.Results {
+		if !inBaseline(r.O) {
+			continue
+		}
+		if r.V.Status == "discharged" {
+			ok[r.O.Name] = true
+		} else {
+			bad[r.O.Name] = true
+		}
+		props[r.O.Name] = r.O.Props
+	}
+	b := baseline{}
+	for n := range ok {
+		if bad[n] {
+			continue
+		}
+		for _, p := range props[n] {
+			b[p] = append(b[p], n)
+		}
+	}
+	for p := range b {
+		sort.Strings(b[p])
+	}
+	if err := writeJSON(filepath.Join(opts.Verif, "engine", "baseline_obligations.json"), b); err != nil {
+		fmt.Fprintln(os.Stderr, err)
+		return 2
+	}
+	n := 0
+	for _, v := range b {
+		n += len(v)
+	}
+	fmt.Printf("baseline: %d (property, obligation) pairs; %d obligation names not discharged and left out\n", n, len(bad))
+	for nme := range bad {
+		fmt.Println("  not in baseline:", nme)
+	}
+	for _, f := range rr.Funcs {
+		if f.Err != nil {
+			fmt.Println("  generator error:", f.Err)
+		}
+	}
+	return 0
+}
